@@ -143,6 +143,11 @@ func (p *Parser) parseString(data string) error {
 	if inBackticks {
 		return errors.New("backticks left open")
 	}
+	// A continuation backslash on the last line leaves a directive pending in the buffer:
+	// evaluate it instead of silently dropping it.
+	if linebuffer.Len() > 0 {
+		return p.evaluateLine(linebuffer.String())
+	}
 	return nil
 }
 
